@@ -936,6 +936,15 @@ class CodeGen:
                 concrete_params.append(arg_bubble.value.type)
             bubble += arg_bubble
 
+        if name == ast.Ident('write') and abstract_params == (DataType.INT,):
+            # write_int builds its digits below its frame, on top of and
+            # beyond its argument (see stdlib).  Stack overflow checks
+            # must account for that buffer like for any other frame use.
+            digits = len(str(self.max_signed + 1))
+            self.checkpoints.update(
+                self.stack.static_size + max(0, digits - self.word_size)
+            )
+
         label = self.label_for_func(ConcreteSignature(name, tuple(concrete_params)))
         yield asm.Add(self.fp, asm.State(self.fp), asm.IntLiteral(-offset))
         yield from self.goto(label)
